@@ -92,8 +92,11 @@ def asTempTree (j : Json) : R (TempTree × Option TempTree) := do
   let zs ← listD asZoneIn j "zones"
   let specZones : Option (List Zone) := zs.foldr (fun z acc => match z.2, acc with
     | some s, some l => some (s :: l) | _, _ => none) (some [])
+  -- the specification says nothing about the coretemp platform glob: silent when it matches and hwmon lists
+  -- no sensor (hypothesis `hct` of C19_temperatures_refine)
+  let speaks := n == 0 || !(Spec.hwmonSensors chips).isEmpty
   pure ({ chips := chips, coretempFiles := n, zones := zs.map (·.1) },
-        specZones.map fun l => { chips := chips, coretempFiles := n, zones := l })
+        if speaks then specZones.map fun l => { chips := chips, coretempFiles := n, zones := l } else none)
 
 def asSupply (j : Json) : R Supply := do
   pure { name := ← bytesF j "name", energyNow := ← fsF j "energy_now", chargeNow := ← fsF j "charge_now"
